@@ -8,13 +8,16 @@ other leniencies off) with the backtracking reference of vp/ref/ellipsis.py;
 (2) Hypothesis-generated longer pairs derived from each other by replacing
 substrings with '...' and by mutating one literal character.
 """
+import contextlib
+import io
 import itertools
 import re
+import warnings
 
 from hypothesis import strategies as st
 
 from vp import engine
-from vp.engine import Violation
+from vp.engine import HarnessError, Violation
 from vp.ref import ellipsis as ref
 
 ID = 'C06'
@@ -83,6 +86,8 @@ def selftest():
 
 def check_case(case, ctx):
     """case = {'got':…, 'want':…, 'via': 'ellipsis_match' | 'check_output'}"""
+    if case.get('via') == 'doctest':
+        return check_doctest_case(case, ctx)
     checker, directive = _xd()
     got, want = case['got'], case['want']
     via = case.get('via', 'ellipsis_match')
@@ -236,6 +241,114 @@ def _check_derived(case, ctx):
     check_case(case, ctx)
 
 
+# ---------------------------------------------------------------------------
+# end to end: the same relation must hold when the texts go through a doctest run, in every way a statement
+# can produce its output (printed, echoed value, printed then echoed value), with ELLIPSIS switched by a directive
+
+E2E_WORDS = ['a', 'b', 'ab', 'a.b', 'b b', 'a  b', 'ba..', 'x']
+DOC_HEAD = ['>>> # xdoctest: -NORMALIZE_WHITESPACE, -NORMALIZE_REPR, -IGNORE_WHITESPACE, {sign}ELLIPSIS',
+            '>>> class R:',
+            '...     def __init__(self, t):',
+            '...         self.t = t',
+            '...     def __repr__(self):',
+            '...         return self.t']
+
+
+@st.composite
+def e2e_case(draw):
+    def text(lo, hi):
+        lines = []
+        for _ in range(draw(st.integers(lo, hi))):
+            lines.append(' '.join(draw(st.lists(st.sampled_from(E2E_WORDS), min_size=1, max_size=4))))
+        return '\n'.join(lines)
+    shape = draw(st.sampled_from(['stdout', 'value', 'both', 'both']))
+    out = text(1, 3) if shape != 'value' else ''
+    val = text(1, 2) if shape != 'stdout' else ''
+    full = {'stdout': out, 'value': val, 'both': out + '\n' + val}[shape]
+    # want: the full text with 0-2 substrings replaced by '...', then possibly damaged
+    n = len(full)
+    k = draw(st.integers(0, 2))
+    cuts_ = sorted(draw(st.lists(st.integers(0, n), min_size=2 * k, max_size=2 * k)))
+    want, pos = [], 0
+    for i in range(k):
+        a, b = cuts_[2 * i], cuts_[2 * i + 1]
+        want.append(full[pos:a])
+        want.append(draw(st.sampled_from(['...', ' ... ', '...'])))
+        pos = b
+    want.append(full[pos:])
+    want = ''.join(want)
+    mode = draw(st.sampled_from(['keep', 'keep', 'drop_tail', 'mutate', 'dup_piece']))
+    if mode == 'drop_tail' and len(want) > 2:
+        want = want[:-draw(st.integers(1, min(3, len(want) - 1)))]
+    elif mode == 'mutate' and want:
+        i = draw(st.integers(0, len(want) - 1))
+        want = want[:i] + 'z' + want[i + 1:]
+    elif mode == 'dup_piece' and want:
+        # demand the tail once more than it occurs: only overlapping pieces could satisfy that
+        tail = want[-draw(st.integers(1, min(4, len(want)))):]
+        want = want + '...' + tail
+    return {'via': 'doctest', 'shape': shape, 'out': out, 'val': val, 'want': want, 'ellipsis': draw(st.booleans()), 'mode': mode}
+
+
+def want_is_writable(want):
+    lines = want.split('\n')
+    if not want.strip() or any(not ln.strip() for ln in lines):
+        return False                       # a blank line would end the want
+    if any(ln.lstrip().startswith(('>>>', '...')) for ln in lines[:1]):
+        return False                       # would be read as source
+    if any(ln.lstrip().startswith('>>>') for ln in lines):
+        return False
+    return True
+
+
+def check_doctest_case(case, ctx):
+    from xdoctest import core
+    want = case['want']
+    if not want_is_writable(want):
+        if ctx is not None:
+            ctx.notes['e2e_want_not_writable'] += 1
+        return
+    shape, out, val = case['shape'], case['out'], case['val']
+    if shape == 'stdout':
+        stmt = '>>> print({!r})'.format(out)
+        alts = [out + '\n']
+    elif shape == 'value':
+        stmt = '>>> R({!r})'.format(val)
+        alts = [val]
+    else:
+        stmt = '>>> print({!r}) or R({!r})'.format(out, val)
+        alts = [out + '\n', val, out + '\n' + val + '\n']
+    doc = '\n'.join([ln.format(sign='+' if case['ellipsis'] else '-') for ln in DOC_HEAD] + [stmt] + want.split('\n')) + '\n'
+    nw = _norm(want)
+    may_pass = any((True in (ref.verdicts(_norm(g), nw) if case['ellipsis'] else {_norm(g) == nw})) or g == want for g in alts)
+    must_pass = any((ref.verdicts(_norm(g), nw) == {True} if case['ellipsis'] else _norm(g) == nw) or g == want for g in alts)
+    with warnings.catch_warnings(), contextlib.redirect_stdout(io.StringIO()):
+        warnings.simplefilter('ignore')
+        exs = list(core.parse_docstr_examples(doc, callname='c06', style='freeform'))
+    if len(exs) != 1:
+        raise HarnessError('e2e doctest not collected:\n' + doc)
+    with contextlib.redirect_stdout(io.StringIO()):
+        summary = exs[0].run(on_error='return', verbose=0)
+    passed = bool(summary['passed'])
+    if ctx is not None:
+        ctx.count()
+        ctx.tag('e2e:' + shape, 'e2e:' + ('+' if case['ellipsis'] else '-') + 'ELLIPSIS', 'e2e:expected_' + ('pass' if must_pass else ('fail' if not may_pass else 'open')))
+        if '...' in want:
+            ctx.nontriv(('e2e', doc), {'doctest': doc, 'must_pass': must_pass, 'may_pass': may_pass})
+    if passed and not may_pass:
+        raise Violation('doctest:{}ELLIPSIS:false_match:{}'.format('+' if case['ellipsis'] else '-', shape),
+                        'the doctest passes although no reading of the output {} matches the want {!r} with ELLIPSIS {}\n{}'.format(
+                            alts, want, 'on' if case['ellipsis'] else 'off', doc))
+    if not passed and must_pass:
+        raise Violation('doctest:{}ELLIPSIS:false_mismatch:{}'.format('+' if case['ellipsis'] else '-', shape),
+                        'the doctest fails ({}) although the output {} matches the want {!r} with ELLIPSIS {}\n{}'.format(
+                            summary['exc_info'] and summary['exc_info'][1], alts, want, 'on' if case['ellipsis'] else 'off', doc))
+
+
+def hyp_e2e(ctx, n_examples):
+    engine.hyp_run(ctx, e2e_case(), check_doctest_case, n_examples)
+
+
 def hyp_pairs(ctx, n_examples, via):
     alphabet = WIDE if via == 'ellipsis_match' else SAFE
     strat = derived_pair(alphabet).map(lambda t: {'got': t[0], 'want': t[1], 'mode': t[2], 'via': via})
@@ -256,4 +369,6 @@ def jobs(tier):
         out.append(('hyp_match#%d' % s, 'hyp_pairs', dict(n_examples=per, via='ellipsis_match')))
     for s in range(nh):
         out.append(('hyp_check_output#%d' % s, 'hyp_pairs', dict(n_examples=per // 2, via='check_output')))
+    for s in range(8):
+        out.append(('hyp_e2e#%d' % s, 'hyp_e2e', dict(n_examples=500 if tier == 'quick' else 12000)))
     return out
